@@ -58,6 +58,8 @@ def check(ctx):
         a = m_call(t, name='ok_or') or m_call(t, name='ok_or_else')
         if a is not None:
             t = a[0]
+        if t[0] == 'vfield' and t[2] == 'Some' and t[3] == '0':
+            t = t[1]          # the payload bound by `let Some(d) = message.opt_digest() else { bail }` / `if let Some(d)`
         o = m_call(t, name='opt_digest') or m_call(t, name='digest', trait='DigestProvider')
         return o is not None and is_message(o[0])
 
@@ -118,8 +120,12 @@ def check(ctx):
     decl = find_terms(b, tb, lambda x: x[0] == 'call' and call_name(x) in ('opt_digest',) and is_message(x[2][0]))
     if decl:
         via_ok_or = find_terms(b, tb, lambda x: x[0] == 'call' and call_name(x) in ('ok_or', 'ok_or_else') and strip_sites(x[2][0]) in decl)
+        none_accepts = [a_ for a_ in acc if a_[0] in reach_under(b, tb, {('discr', decl[0]): 0})]
+        tested = find_terms(b, tb, lambda x: x[0] == 'discr' and strip_sites(x[1]) == decl[0])
         if via_ok_or:
             ctx.ok('C08.2', ctx.site(b), 'missing declared digest -> Err via ok_or(..)?')
+        elif tested and not none_accepts:
+            ctx.ok('C08.2', ctx.site(b), 'missing declared digest -> no accept exit is reachable when opt_digest() is None')
         else:
             ctx.fail('C08.2', ctx.site(b), 'a message without declared digest is not turned into an error', key='C08.2|missing')
     # ---- C08.4 refusal arms in encrypt_subject_opt
